@@ -438,7 +438,10 @@ static int Convert_mus2midi(uint8_t *in, uint32_t insize,
             delta_time = 0;
             do {
                 if (end - cur < 1) goto _end;
+                /* a delta time must stay inside the 28 bits a variable-length quantity can carry */
+                if (delta_time > 0x001FFFFF) goto _end;
                 delta_time = (int32_t)((delta_time * 128 + (*cur & 127)) * (140.0 / (double)frequency));
+                if (delta_time < 0 || delta_time > 0x0FFFFFFF) goto _end;
             } while ((*cur++ & 128));
         } else {
             delta_time = 0;
